@@ -40,12 +40,17 @@ def disp(tier, pol="block", cap=1, name=None):
 
 
 def order(tier, pol, cap=1):
-    """order of dispatches incl. a follow-up action (Effect::Action) and a thunk"""
+    """order of dispatches incl. a follow-up action (Effect::Action) and, in the thorough tier, a thunk"""
     rs = {"r1": {0: red("D"), 1: red("D", eff("act", 9))}}
-    progs = [{"c1": [D(1, "impl"), D(2, "trait")], "c2": [TH(3), D(4, "store")] if tier != "quick" else [D(4, "store"), TH(3)],
-              "c3": STOP}]
-    acts = {1: 1, 2: 0, 3: 0, 4: 0, 9: 0}
-    return _i("order_%s%d" % (pol, cap), progs, acts, cap=cap, pol=pol, red_script=rs, max_tasks=3)
+    if tier == "quick":
+        progs = [{"c1": [D(1, "trait"), D(2, "impl")], "c2": [D(4, "store"), O("stop")]}]
+        acts = {1: 1, 2: 0, 4: 0, 9: 0}
+        mt = 1
+    else:
+        progs = [{"c1": [D(1, "impl"), D(2, "trait")], "c2": [D(4, "store"), TH(3)], "c3": [O("stop"), O("get_state")]}]
+        acts = {1: 1, 2: 0, 3: 0, 4: 0, 9: 0}
+        mt = 2
+    return _i("order_%s%d" % (pol, cap), progs, acts, cap=cap, pol=pol, red_script=rs, max_tasks=mt)
 
 
 def subs_direct(tier):
@@ -73,7 +78,7 @@ def stop_race(tier, pol="block", variant=0):
 def burst(tier, pol, cap):
     """bursts of capacity+2 with the reducer free to stall anywhere"""
     n = cap + 2
-    progs = [{"c1": [D(i, "trait") for i in range(1, n + 1)] + [O("metrics")],
+    progs = [{"c1": [D(i, "trait") for i in range(1, n + 1)],
               "c2": [D(10, "impl")] + STOP}]
     acts = {i: 0 for i in range(1, n + 1)}
     acts[10] = 0
@@ -98,7 +103,7 @@ def readers(tier):
 def life(tier, kind="direct", pol="block"):
     """subscribe / unsubscribe (twice) racing dispatches and a stop"""
     reg = {"direct": "add_sub", "sel": "add_sub", "chan": "subscribed"}[kind]
-    progs = [{"c1": [S(reg, "s1"), S("add_sub", "s2"), S("unsub", "s1"), S("unsub", "s1")],
+    progs = [{"c1": [S("add_sub", "s2"), S(reg, "s1"), S("unsub", "s1"), S("unsub", "s1")],
               "c2": [D(1), D(2)] + ([D(3)] if tier != "quick" else []) + STOP}]
     return _i("life_%s_%s" % (kind, pol), progs, {1: 1, 2: 0, 3: 1}, cap=2,
               subs={"s1": {"kind": kind, "cap": 1, "pol": pol}, "s2": {"kind": "direct"}})
@@ -142,10 +147,11 @@ def middleware(tier, n=2):
 
 def iterator(tier, drop=False):
     if drop:
-        progs = [{"c1": [S("iter", "s1"), S("next", "s1"), S("drop_iter", "s1")], "c2": [D(1), D(2)] + STOP}]
+        progs = [{"c1": [S("iter", "s1"), S("signal", "g"), S("next", "s1"), S("drop_iter", "s1")],
+                  "c2": [D(1), D(2), S("wait", "g")] + STOP}]
     else:
-        progs = [{"c1": [S("iter", "s1")] + [S("next", "s1")] * 4 + [S("drop_iter", "s1")],
-                  "c2": [S("add_sub", "s2"), D(1), D(2)] + STOP}]
+        progs = [{"c1": [S("iter", "s1"), S("signal", "g")] + [S("next", "s1")] * 4 + [S("drop_iter", "s1")],
+                  "c2": [S("add_sub", "s2"), D(1), D(2), S("wait", "g")] + STOP}]
     return _i("iter_%s" % ("drop" if drop else "read"), progs, {1: 0, 2: 0}, cap=2,
               subs={"s1": {"kind": "iter", "cap": 1, "pol": "block"}, "s2": {"kind": "direct"}})
 
@@ -156,20 +162,24 @@ def api_mix(tier, k):
         "prod": [D(1, "impl"), D(2, "trait")],
         "subm": [S("add_sub", "s1"), S("unsub", "s1")],
         "chanm": [S("subscribed", "s2"), S("unsub", "s2")],
-        "iterm": [S("iter", "s3"), S("next", "s3"), S("next", "s3"), S("next", "s3"), S("drop_iter", "s3")],
+        "iterm": [S("iter", "s3"), S("signal", "g"), S("next", "s3"), S("next", "s3"), S("next", "s3"), S("drop_iter", "s3")],
         "read": [O("get_state"), O("metrics")],
         "reg": [S("add_reducer", "r2"), S("add_mw", "m1")],
         "stop": [O("stop")],
         "close": [O("close"), O("stop")],
         "drop": [O("drop_store")],
         "selm": [S("add_sub", "s4"), S("unsub", "s4")],
+        "iterd": [S("iter", "s3"), S("signal", "g"), S("next", "s3"), S("drop_iter", "s3")],
     }
     combos = [("prod", "subm", "stop"), ("prod", "chanm", "stop"), ("prod", "iterm", "stop"),
               ("prod", "chanm", "close"), ("prod", "selm", "drop"), ("prod", "reg", "stop"),
               ("prod", "read", "chanm", "stop"), ("prod", "subm", "chanm", "drop"),
-              ("prod", "iterm", "chanm", "stop"), ("prod", "prod2", "stop")]
+              ("prod", "iterm", "chanm", "stop"), ("prod", "prod2", "stop"), ("prod", "iterd", "stop")]
     roles["prod2"] = [D(3, "store"), D(4, "impl")]
     c = combos[k % len(combos)]
+    if "iterm" in c or "iterd" in c:      # the store is stopped only after the iterator exists
+        for r in ("stop", "close", "drop"):
+            roles[r] = [S("wait", "g")] + roles[r]
     progs = [{"c%d" % (i + 1): roles[r] for i, r in enumerate(c)}]
     pol = ["block", "oldest", "latest"][(k // len(combos)) % 3]
     return _i("api%d" % k, progs, {1: 0, 2: 1, 3: 0, 4: 1}, cap=1, pol=pol,
@@ -249,7 +259,7 @@ def table(pid, tier):
         T = dict(mc=[(i, inv, []) for i in insts], gen=[(i, 1200 if q else 30000) for i in insts],
                  free=[(i, 100 if q else 1000) for i in insts[:2]])
     elif pid == "C13":
-        ks = [1, 2, 6, 12, 23] if q else list(range(30))
+        ks = [1, 2, 10, 12, 23] if q else list(range(33))
         insts = [api_mix(tier, k) for k in ks]
         inv = ["C13_NoDeadlock"]
         T = dict(mc=[(i, inv, []) for i in insts], gen=[(i, 500 if q else 4000) for i in insts[:3 if q else 10]],
